@@ -44,11 +44,14 @@ type c02Result struct {
 	Status   int    // c02Status*, or -1 worker died, -2 timeout
 	Msg      string // error text / panic value + site / stderr tail of a dead worker
 	Site     string // panic site (function) for keys
-	Alloc    uint64
+	Alloc    uint64 // bytes allocated during the call (cumulative)
+	Peak     uint64 // peak growth of the bytes held by heap objects (peak mode only)
 	Elapsed  time.Duration
 	Restarts int
 	// Amplified: over the allocation budget, but shown to follow the consumed input
 	Amplified bool
+	// Churn: cumulative allocation over the budget, peak heap growth within it
+	Churn bool
 }
 
 // ---- worker side ------------------------------------------------------------------
@@ -85,15 +88,42 @@ func c02ChildMain() {
 		}
 		entry := int(binary.BigEndian.Uint16(hdr[0:]))
 		variant := int(binary.BigEndian.Uint16(hdr[2:]))
+		peakMode := variant&0x8000 != 0
+		variant &= 0x7fff
 		n := int(binary.BigEndian.Uint32(hdr[4:]))
 		data := make([]byte, n)
 		if _, err := io.ReadFull(in, data); err != nil {
 			os.Exit(0)
 		}
 		status, msg, site := c02StatusBadCall, "no such entry", ""
-		var alloc uint64
+		var alloc, peak uint64
 		var el time.Duration
 		if entry < len(c02Entries) && variant < c02Entries[entry].Variants {
+			var stop, stopped chan struct{}
+			if peakMode {
+				// peak heap growth: collect first, then sample the bytes held by heap
+				// objects (live + not yet swept) while the call runs
+				runtime.GC()
+				ps := []metrics.Sample{{Name: "/memory/classes/heap/objects:bytes"}}
+				metrics.Read(ps)
+				base := ps[0].Value.Uint64()
+				stop, stopped = make(chan struct{}), make(chan struct{})
+				go func() {
+					defer close(stopped)
+					for {
+						metrics.Read(ps)
+						if v := ps[0].Value.Uint64(); v > base && v-base > peak {
+							peak = v - base
+						}
+						select {
+						case <-stop:
+							return
+						default:
+						}
+						time.Sleep(50 * time.Microsecond)
+					}
+				}()
+			}
 			metrics.Read(allocS)
 			a0 := allocS[0].Value.Uint64()
 			t0 := time.Now()
@@ -101,16 +131,21 @@ func c02ChildMain() {
 			el = time.Since(t0)
 			metrics.Read(allocS)
 			alloc = allocS[0].Value.Uint64() - a0
+			if peakMode {
+				close(stop)
+				<-stopped
+			}
 		}
 		if len(msg) > 4000 {
 			msg = msg[:4000]
 		}
-		var resp [25]byte
+		var resp [33]byte
 		resp[0] = byte(status)
 		binary.BigEndian.PutUint64(resp[1:], alloc)
 		binary.BigEndian.PutUint64(resp[9:], uint64(el))
 		binary.BigEndian.PutUint32(resp[17:], uint32(len(msg)))
 		binary.BigEndian.PutUint32(resp[21:], uint32(len(site)))
+		binary.BigEndian.PutUint64(resp[25:], peak)
 		out.Write(resp[:])
 		out.WriteString(msg)
 		out.WriteString(site)
@@ -259,6 +294,11 @@ func (r *c02Runner) Close() { r.kill() }
 
 var errC02Timeout = errors.New("timeout")
 
+// callPeak is call with peak-heap sampling switched on in the worker.
+func (r *c02Runner) callPeak(entry, variant int, data []byte, wait time.Duration) c02Result {
+	return r.call(entry, variant|0x8000, data, wait)
+}
+
 // call runs one input in the worker, waiting at most `wait`.
 func (r *c02Runner) call(entry, variant int, data []byte, wait time.Duration) c02Result {
 	if r.w == nil {
@@ -281,7 +321,7 @@ func (r *c02Runner) call(entry, variant int, data []byte, wait time.Duration) c0
 			ch <- rd{err: err}
 			return
 		}
-		var resp [25]byte
+		var resp [33]byte
 		if _, err := io.ReadFull(w.resp, resp[:]); err != nil {
 			ch <- rd{err: err}
 			return
@@ -297,6 +337,7 @@ func (r *c02Runner) call(entry, variant int, data []byte, wait time.Duration) c0
 			Status: int(resp[0]), Alloc: binary.BigEndian.Uint64(resp[1:]),
 			Elapsed: time.Duration(binary.BigEndian.Uint64(resp[9:])),
 			Msg:     string(buf[:ml]), Site: string(buf[ml:]),
+			Peak: binary.BigEndian.Uint64(resp[25:]),
 		}}
 	}()
 	timer := time.NewTimer(wait)
